@@ -272,8 +272,22 @@ func genCopyGeom(r *simrt.RNG, typ string, g grid) *gpkgh.G {
 	empty := r.Chance(0.08)
 	out := &gpkgh.G{T: typ}
 	switch typ {
+	case gpkgh.TCollection:
+		if !empty {
+			for i, n := 0, 1+r.Intn(3); i < n; i++ {
+				member := []string{gpkgh.TPoint, gpkgh.TLineString, gpkgh.TMultiPoint}[r.Intn(3)]
+				m := genCopyGeom(r, member, g)
+				if member == gpkgh.TPoint {
+					m.P = pts(1)
+				}
+				out.C = append(out.C, m)
+			}
+		}
 	case gpkgh.TPoint:
 		out.P = pts(1)
+		if empty {
+			out.P = [][2]float64{} // POINT EMPTY
+		}
 	case gpkgh.TLineString:
 		if !empty {
 			out.P = pts(2 + r.Intn(4))
@@ -314,11 +328,15 @@ func genTable(r *simrt.RNG, used map[string]bool, srs gpkgh.SRS, t tms20.TileMat
 			}
 		}
 	}
-	switch x := r.Intn(10); {
+	switch x := r.Intn(12); {
 	case x < 4:
 		tb.GeomType = gpkgh.TPolygon
 	case x < 6:
 		tb.GeomType = gpkgh.TMultiPolygon
+	case x < 7:
+		tb.GeomType = gpkgh.TGeometry // any type per row: polygons are snapped, the rest is copied
+	case x < 8:
+		tb.GeomType = gpkgh.TCollection
 	default:
 		tb.GeomType = copyTypes[r.Intn(len(copyTypes))]
 	}
@@ -436,7 +454,11 @@ func genTable(r *simrt.RNG, used map[string]bool, srs gpkgh.SRS, t tms20.TileMat
 				row.Vals = append(row.Vals, gpkgh.TextVal(v))
 			}
 		}
-		switch tb.GeomType {
+		rowType := tb.GeomType
+		if rowType == gpkgh.TGeometry {
+			rowType = []string{gpkgh.TPolygon, gpkgh.TMultiPolygon, gpkgh.TPoint, gpkgh.TLineString, gpkgh.TMultiPoint, gpkgh.TMultiLineString, gpkgh.TCollection}[r.Intn(7)]
+		}
+		switch rowType {
 		case gpkgh.TPolygon:
 			row.Geom = &gpkgh.G{T: gpkgh.TPolygon, L: genPolygon(r, t, g, w.IDs, w.IgnoreOut && r.Chance(0.1))}
 		case gpkgh.TMultiPolygon:
@@ -446,7 +468,7 @@ func genTable(r *simrt.RNG, used map[string]bool, srs gpkgh.SRS, t tms20.TileMat
 			}
 			row.Geom = mp
 		default:
-			row.Geom = genCopyGeom(r, tb.GeomType, g)
+			row.Geom = genCopyGeom(r, rowType, g)
 			if nullGeoms && r.Chance(0.1) {
 				row.Geom = nil
 			}
@@ -674,7 +696,6 @@ func buildModel(w *twork, srcDump *gpkgh.FileDump) modelResult {
 		if !t.Spatial {
 			continue
 		}
-		poly := t.GeomType == gpkgh.TPolygon || t.GeomType == gpkgh.TMultiPolygon
 		per := map[int]*gpkgh.ExpTable{}
 		for _, id := range w.IDs {
 			per[id] = &gpkgh.ExpTable{Name: t.Name, Columns: t.Columns, GeomCol: t.GeomCol, GeomType: t.GeomType, SRSID: t.SRSID}
@@ -686,6 +707,7 @@ func buildModel(w *twork, srcDump *gpkgh.FileDump) modelResult {
 		for ri, row := range t.Rows {
 			label := fmt.Sprintf("source row %d of %s", ri, t.Name)
 			row.Vals = sd.Rows[ri].Vals
+			poly := row.Geom != nil && (row.Geom.T == gpkgh.TPolygon || row.Geom.T == gpkgh.TMultiPolygon)
 			if !poly {
 				for _, id := range w.IDs {
 					er := gpkgh.ExpRow{Vals: row.Vals, Geom: row.Geom, NullGeom: row.Geom == nil, Label: label}
